@@ -1,0 +1,14 @@
+//go:build verif
+
+package javaapp
+
+// Contracts checked by /verif (vcgo). Comment-only: no executable code.
+// C01 / C02: the full pass is given the identifier pass's result. The identifier pass walks files and parses them
+// (outside the subset); its result is named by a ghost function so that callers can be held to passing it on.
+
+//@ spec IdentResult(codeDir string) []core_domain.CodeDataStruct
+
+//@ method JavaIdentifierApp.AnalysisPath
+//@ trusted "names its own result: IdentResult(codeDir) is by definition what the identifier pass returns for codeDir"
+//@ modifies *
+//@ ensures result == IdentResult(codeDir)
